@@ -73,6 +73,12 @@ func pool(thorough bool) []val {
 		{Src: "[[[1], 'a], [[1], 'a]].M"}, {Src: "[[[1], 'a], [[2], 'z]].M"}, {Src: "[[[1], 'a]].M"}, {Src: "[[1, 'a], [1, 'b]].M"}, {Src: "{a: 1}.A.M"},
 		{Src: "{**{a: 1}, **{a: 2, b: 2}}"}, {Src: "[*[1], 2]"}, {Src: "[1] + [2]"},
 		{Src: "(1:3)"}, {Src: "(1:3:1)"}, {Src: "(nil:nil)"}, {Src: "('a:'c)"},
+		// ranges whose step is not a plain non-zero int; floats that equal a literal but were computed (negated variable,
+		// bit inversion, arithmetic, conversions) - equal values built differently
+		{Src: "(1:5:0.5)"}, {Src: "(1:5:0)"}, {Src: "('a:'e:'b)"}, {Src: "(1:5:nil)"}, {Src: "(1:nil:2)"}, {Src: "(nil:nil:-1)"},
+		{Src: "{|x| -x}(1.5)", Fam: "float"}, {Src: "{|x| -x}(-1.5)", Fam: "float"}, {Src: "(0.0 - 1.5)", Fam: "float"}, {Src: "(3.0 / 2)", Fam: "float"}, {Src: `"1.5".F`, Fam: "float"}, {Src: "{|x| +x}(2.5)", Fam: "float"}, {Src: "{|x| /~x}(1.5)", Fam: "float"},
+		{Src: "{|x| -x}(1)", Fam: "int"}, {Src: "{|x| -x}(-7)", Fam: "int"}, {Src: "{|x| /~x}(-2)", Fam: "int"}, {Src: `"7".I`, Fam: "int"}, {Src: "(14 // 2)", Fam: "int"},
+		{Src: `{|x| -x}("a")`}, {Src: `{|x| x * 1}("ab")`, Fam: "str"}, {Src: `"ab".A.join("")`, Fam: "str"}, {Src: `'ab.S`, Fam: "str"},
 		{Src: "ff"}, {Src: "{|x| x}"}, {Src: "{|x| x + 1}"}, {Src: "m{|x| x}"},
 		{Src: "1.try"}, {Src: "2.try"}, {Src: `"a".try`}, {Src: "1.try./(0)"}, {Src: "1.try./(0).err"}, {Src: "1.try.nosuch.err"},
 	}
